@@ -110,6 +110,21 @@ fn main() {
             let sel = args.str("flavours", "all");
             for_flavours!(sel.as_str(), F, { leak::run::<F>(&mut rep, max_n, max_e, random, shard, nshards, &mut rng) });
         }
+        "mutate" => {
+            watchdog::start(prop.clone());
+            let max_n = args.num("max-n", 3) as usize;
+            let max_e = args.num("max-e", 1) as usize;
+            let random = args.num("random", 1000) / nshards / 4 + 1;
+            for_flavours!("all", F, { mutate::run::<F>(&mut rep, max_n, max_e, random, shard, nshards, &mut rng) });
+        }
+        "dropin" => {
+            let programs = args.num("programs", 200) / nshards + 1;
+            let len = args.num("len", 300) as usize;
+            let me = args.num("max-edges", 2) as usize;
+            dropin::run_enumerated::<flav::PlainDi, flav::SyncDi>(&mut rep, 3, me, shard, nshards);
+            dropin::run_enumerated::<flav::PlainUn, flav::SyncUn>(&mut rep, 3, me, shard, nshards);
+            dropin::run(&mut rep, programs, len, &mut rng);
+        }
         "replay" => {
             let path = args.str("file", "");
             let txt = std::fs::read_to_string(&path).expect("cannot read replay file");
@@ -138,6 +153,9 @@ fn main() {
                 }
                 "leak" => {
                     for_flavours!(fl.as_str(), F, { reproduced |= leak::replay::<F>(r) });
+                }
+                "mutate" => {
+                    for_flavours!(fl.as_str(), F, { reproduced |= mutate::replay::<F>(r) });
                 }
                 k => println!("replay kind {} not supported by this binary", k),
             }
